@@ -17,12 +17,12 @@ RULE = ('all 7^3 ordered triples of wavelength unit names (4 units + 3 aliases) 
 ASSUMPTIONS = ["lentil's physical constants differ from CODATA by < 1e-6 relative (tolerance 1e-5 on absolute Planck values)"]
 EXHAUSTIVE = True
 PLAN = {'quick': {'gen': 4}, 'thorough': {'gen': 8, 'tests': 1, 'docs': 1}}
-REQUIRED_BUCKETS = ['wave-triple', 'flux-triple', 'spectrum.to:density', 'spectrum.to:unitless', 'spectrum.to:flux-roundtrip',
+REQUIRED_BUCKETS = ['wave-triple', 'flux-triple', 'spectrum.to:density', 'spectrum.to:unitless', 'spectrum.to:flux-roundtrip', 'spectrum.to:multi',
                     'planck:radiance', 'planck:exitance', 'wien', 'stefan-boltzmann', 'vega']
 REQUIRED_ANCHORS = ['anchor:Spectrum.to', 'anchor:planck_radiance', 'anchor:planck_exitance', 'anchor:vegaflux',
                     'anchor:Photlam.to', 'anchor:Micron.to']
 REQUIRED_ORACLES = ['wave:compose', 'wave:identity', 'wave:roundtrip', 'wave=si', 'flux:compose', 'flux:identity',
-                    'flux:roundtrip', 'flux=si', 'to:integral', 'to:values', 'to:flux-roundtrip', 'planck=si',
+                    'flux:roundtrip', 'flux=si', 'to:integral', 'to:values', 'to:flux-roundtrip', 'to:multi', 'planck=si',
                     'exitance=pi*radiance', 'wien', 'stefan-boltzmann', 'vega']
 
 
@@ -140,6 +140,38 @@ def workload(ctx, lentil):
                           scale=float(np.max(np.abs(sm.flux_to_wlam_si(per_m_a, vu, wm)))) + 1e-300)
             except Exception as e:
                 ctx.check(False, 'to:flux-roundtrip', f'to|flux|raises={type(e).__name__}', str(e), desc)
+    # ---- Spectrum.to with several units in one call == the same conversions one after the other ---------------------
+    for i in range(n):
+        npts = int(rng.integers(2, 20))
+        u0 = sm.WAVE_CANON[int(rng.integers(0, 4))]
+        wave = (np.cumsum(rng.uniform(0.5, 30, size=npts)) + rng.uniform(200, 900)) * sm.wave_factor('nm', u0)
+        value = rng.uniform(0.1, 5, size=npts)
+        vu = sm.FLUX[int(rng.integers(0, 3))]
+        seq = []
+        for _ in range(int(rng.integers(2, 5))):
+            seq.append(sm.WAVE_CANON[int(rng.integers(0, 4))] if rng.random() < 0.5 else sm.FLUX[int(rng.integers(0, 3))])
+        desc = {'spectrum.to-multi': seq, 'from': [u0, vu], 'n': npts}
+        ctx.case(desc, ['spectrum.to:multi'])
+        a = R.Spectrum(wave.copy(), value.copy(), waveunit=u0, valueunit=vu)
+        b = R.Spectrum(wave.copy(), value.copy(), waveunit=u0, valueunit=vu)
+        try:
+            a.to(*seq)
+            for u in seq:
+                b.to(u)
+        except Exception as e:
+            ctx.check(False, 'to:multi', f'to-multi|raises={type(e).__name__}', str(e), desc)
+            continue
+        ctx.close('to:multi', a.value / b.value, np.ones(npts), 1e-11, 'to-multi|value',
+                  'Spectrum.to(u1, u2, ...) differs from the same conversions applied one after the other', desc, scale=1.0)
+        ctx.check(np.allclose(a.wave, b.wave, rtol=1e-13, atol=0) and a.waveunit == b.waveunit and a.valueunit == b.valueunit,
+                  'to:multi', 'to-multi|wave', 'Spectrum.to(u1, u2, ...) leaves other wavelengths/units than sequential conversion', desc)
+        # and both describe the original physical spectrum (per metre, SI)
+        wm0 = wave * sm.WAVE_M[u0]
+        si0 = sm.flux_to_wlam_si(value / sm.WAVE_M[u0], vu, wm0)
+        wm1 = np.asarray(a.wave, float) * sm.WAVE_M[a.waveunit]
+        si1 = sm.flux_to_wlam_si(np.asarray(a.value, float) / sm.WAVE_M[a.waveunit], a.valueunit, wm1)
+        ctx.close('flux=si', si1 / si0, np.ones(npts), 1e-6, 'to-multi|physical',
+                  'a spectrum converted with Spectrum.to(u1, u2, ...) no longer describes the same physical flux', desc, scale=1.0)
     # ---- Planck ---------------------------------------------------------------------------------------
     nT = 25 if ctx.tier == 'quick' else 200
     for i in range(nT):
